@@ -10,6 +10,7 @@ import (
 	"io"
 	"os"
 	"path/filepath"
+	"reflect"
 	"strconv"
 	"strings"
 	"sync/atomic"
@@ -34,6 +35,8 @@ type Run struct {
 	Via string `json:"via"`
 	// MayFail: the run may also end in an error (any); if it renders, the output is compared as usual
 	MayFail bool `json:"mayfail"`
+	// NoRel: the run takes no part in the "same" relation (its output is the expected one behind a pad)
+	NoRel bool `json:"norel"`
 	// Alt: another output this run may give (then it takes no part in the "same" relation)
 	Alt *[]int `json:"alt"`
 	// per-run engine options
@@ -916,6 +919,48 @@ func errMatches(want, got string) bool {
 	return got == want
 }
 
+// editMapsInPlace replaces, in every map with string keys and two or more entries reachable through maps, slices and
+// interfaces, the greatest key k by k + "~" (same value); it returns the number of maps edited
+func editMapsInPlace(v reflect.Value, depth int) int {
+	if depth > 6 || !v.IsValid() {
+		return 0
+	}
+	switch v.Kind() {
+	case reflect.Interface, reflect.Ptr:
+		if v.IsNil() {
+			return 0
+		}
+		return editMapsInPlace(v.Elem(), depth+1)
+	case reflect.Slice, reflect.Array:
+		n := 0
+		for i := 0; i < v.Len(); i++ {
+			n += editMapsInPlace(v.Index(i), depth+1)
+		}
+		return n
+	case reflect.Map:
+		n := 0
+		for _, k := range v.MapKeys() {
+			n += editMapsInPlace(v.MapIndex(k), depth+1)
+		}
+		if v.IsNil() || v.Type().Key().Kind() != reflect.String || v.Len() < 2 {
+			return n
+		}
+		var max reflect.Value
+		for _, k := range v.MapKeys() {
+			if !max.IsValid() || k.String() > max.String() {
+				max = k
+			}
+		}
+		nk := reflect.New(v.Type().Key()).Elem()
+		nk.SetString(max.String() + "~")
+		val := v.MapIndex(max)
+		v.SetMapIndex(nk, val)
+		v.SetMapIndex(max, reflect.Value{})
+		return n + 1
+	}
+	return 0
+}
+
 func checkCase(c *Case, limit time.Duration) (res Result, hung bool) {
 	res = Result{Prop: c.Prop, Key: c.Key, Tags: c.Tags, Pass: true, Runs: len(c.Runs)}
 	ctx, err := scopeOf(c.Ctx)
@@ -961,6 +1006,30 @@ func checkCase(c *Case, limit time.Duration) (res Result, hung bool) {
 		}
 		o := renderRunTimed(c, r, rctx, limit)
 		recordObs(c, r, &o)
+		if c.Prop == "C03" && i == 0 && o.kind != "hang" {
+			// the same data object rendered, edited IN PLACE (in every map of two or more keys one key is replaced by another,
+			// the size stays) and rendered again: the output is that of a fresh object with the same content
+			if ca, err := scopeOf(rawCtx); err == nil {
+				renderRunTimed(c, r, ca, limit)
+				n := 0
+				for _, v := range ca {
+					n += editMapsInPlace(reflect.ValueOf(v), 0)
+				}
+				if n > 0 {
+					oa := renderRunTimed(c, r, ca, limit)
+					cb, _ := scopeOf(rawCtx)
+					for _, v := range cb {
+						editMapsInPlace(reflect.ValueOf(v), 0)
+					}
+					ob := renderRunTimed(c, r, cb, limit)
+					if oa.ok != ob.ok || oa.out != ob.out {
+						res.Pass = false
+						res.Fails = append(res.Fails, Fail{Run: r.Label, Why: "edited-in-place-differs-from-fresh", Got: short(fmt.Sprintf("ok=%v %s", oa.ok, oa.out)),
+							Want: short(fmt.Sprintf("ok=%v %s", ob.ok, ob.out)), Src: short(src)})
+					}
+				}
+			}
+		}
 		digest.Write([]byte(fmt.Sprintf("%s|%v|%s|%s\n", r.Label, o.ok, o.kind, o.out)))
 		if r.Shared > 0 {
 			shared := renderRunTimed(c, r, rctx, limit)
@@ -1066,7 +1135,7 @@ func checkCase(c *Case, limit time.Duration) (res Result, hung bool) {
 		if c.Rel == "same" && r.Alt != nil && o.ok && o.out == textOf(*r.Alt, r.Pads, false) {
 			continue
 		}
-		if c.Rel == "same" {
+		if c.Rel == "same" && !r.NoRel {
 			if first == nil {
 				oc := o
 				first = &oc
